@@ -212,7 +212,11 @@ def cone(assertions, cond):
             if n in DEFS:
                 todo.extend(bv_consts_of(DEFS[n]))
         return out
-    want = closure(consts_of(cond))
+    seed = consts_of(cond)
+    if not seed:
+        # the question is the feasibility of the path itself (obligation `False`): everything tied to a float result counts
+        seed = set(DEFS)
+    want = closure(seed)
     items = [(a, closure(consts_of(a))) for a in assertions]
     used = [False] * len(items)
     changed = True
